@@ -11,6 +11,7 @@ import Paroxy.Proofs.FlatPath
 import Paroxy.Proofs.FlatHash
 import Paroxy.Proofs.FlatEntries
 import Paroxy.Proofs.FlatTweaks
+import Paroxy.Proofs.FlatAlias
 namespace Paroxy.Props.C15
 open Paroxy.Flat
 
@@ -107,11 +108,13 @@ theorem C15_sequence (cfg : Cfg) (s : HashState) (ts : List Val) :
 
 The full statement is `C15_tweaks_full` below (a `def … : Prop`, not proved): every pass of
 `post_process`, applied to the dump of a well-formed tree, is the dump of the tree-level tweak.
-Three of the six passes are proved here (`unquote`, `suppress_kinds`, `suppress_posonlyargs`), each
-under *local* clauses (`wfUnquote`, `wfKinds`, `wfPosonly`: per name / type / scalar, Bool-valued,
-checked by the harness on every real tree). The three others (`suppress_alias_pos`,
-`backport_all_constants`, `simplify_negative_literals`) and the composition are exercised by the
-correspondence only (`c15.spec` = dump of `tweak`), on every run. -/
+Four of the six passes are proved here (`suppress_kinds`, `suppress_alias_pos`, `suppress_posonlyargs`
+— i.e. the first three of the pipeline, also composed — and the last one, `unquote`), each under
+*local* clauses (`wfKinds`, `wfAlias`, `wfPosonly`, `wfUnquote`: per name / type / scalar line,
+Bool-valued, checked by the harness on every real tree). The two others (`backport_all_constants`,
+`simplify_negative_literals`, whose patterns span several lines and backtrack over the rest of the text)
+and the composition of the six are exercised by the correspondence only (`c15.spec` = dump of `tweak`),
+on every run. -/
 
 /-- Full statement (not proved): post-processing the dump = dumping the tweaked tree. -/
 def C15_tweaks_full (WF : Val → Prop) : Prop :=
@@ -144,7 +147,30 @@ theorem C15_tweak_posonly_partial (t0 t : Val) (hwf : wfPosonly [] t = true) :
     suppressPosonlyargs (dumpP (hashFn t0) [] [] t) = dumpP (hashFn t0) [] [] (quietPosonly [] t) :=
   suppressPosonlyargs_dumpP (hashFn t0) (eq_not_mem_hashFn t0) t [] [] (by simp) (by simp) hwf
 
-/-- Non-vacuity: `x = u'a'` (exported shape) satisfies the three sets of clauses. -/
+/-- **C15 (tweak: suppress_alias_pos), partial.** On the dump of a tree satisfying `wfAlias` (no `=` in
+names and types; no scalar line ending with `/_type=alias` or looking like a position line), the pass
+`suppress_alias_pos` is exactly the dump of the tree in which every non-expression node of type `alias`
+below the root has lost its position — nothing else changes. -/
+theorem C15_tweak_alias_partial (t0 t : Val) (hwf : wfAlias [] t = true) :
+    suppressAliasPos (dumpP (hashFn t0) [] [] t) = dumpP (hashFn t0) [] [] (dropAliasPos false t) := by
+  have := (alias_dumpP (hashFn t0) (eq_not_mem_hashFn t0) t [] [] [] (by simp) (by simp) hwf rfl).1
+  simpa [suppressAliasPos] using this
+
+/-- **C15 (the first three passes composed), partial.** `suppress_posonlyargs ∘ suppress_alias_pos ∘
+suppress_kinds` on the dump of a tree = the dump of the tree after the three tree-level tweaks, under
+the local clauses of each pass on its own input tree. -/
+theorem C15_tweak_first_three_partial (t0 : Val) (ty : Str) (e : Bool) (r : Str) (ln : Option Nat)
+    (fs : List (Str × Val))
+    (h1 : wfKinds (.node ty e r ln fs) = true)
+    (h2 : wfAlias [] (dropKinds false (.node ty e r ln fs)) = true)
+    (h3 : wfPosonly [] (dropAliasPos false (dropKinds false (.node ty e r ln fs))) = true) :
+    suppressPosonlyargs (suppressAliasPos (suppressKinds (dumpP (hashFn t0) [] [] (.node ty e r ln fs)))) =
+      dumpP (hashFn t0) [] []
+        (quietPosonly [] (dropAliasPos false (dropKinds false (.node ty e r ln fs)))) := by
+  rw [C15_tweak_kinds_partial t0 ty e r ln fs h1, C15_tweak_alias_partial t0 _ h2,
+    C15_tweak_posonly_partial t0 _ h3]
+
+/-- Non-vacuity: `x = u'a'` (exported shape) satisfies the sets of clauses. -/
 def sampleConst : Val :=
   .node cs!"Module" false [] none
     [(cs!"body", .list false
@@ -152,7 +178,8 @@ def sampleConst : Val :=
         [(cs!"value", .node cs!"Constant" true cs!"Constant(value='a', kind='u')" (some 1)
           [(cs!"value", .scalar cs!"'a'" .str), (cs!"kind", .scalar cs!"'u'" .str)])]])]
 
-example : wfUnquote sampleConst = true ∧ wfKinds sampleConst = true ∧ wfPosonly [] sampleConst = true := by
+example : wfUnquote sampleConst = true ∧ wfKinds sampleConst = true ∧ wfPosonly [] sampleConst = true ∧
+    wfAlias [] sampleConst = true := by
   decide
 example : suppressKinds (dumpP id [] [] sampleConst) =
     [cs!"/_type=Module", cs!"/body/_length=1", cs!"/body/1/_type=Expr", cs!"/body/1/_pos=1:1-",
